@@ -404,7 +404,7 @@ def main():
             {"sim": "elastic", "elem": "HEXA8", "law": "trans", "variant": "plain"},
             {"sim": "elastic", "elem": "PRISM6", "law": "aniso", "variant": "renum"},
             {"sim": "elastic", "elem": "TRI6", "law": "iso_stress", "variant": "mirror"}, {"sim": "elastic", "elem": "HEXA8", "law": "iso", "variant": "mirror"},
-            {"sim": "thermal", "elem": "QUAD4", "variant": "mirror"},
+            {"sim": "thermal", "elem": "QUAD4", "variant": "mirror"}, {"sim": "thermal", "elem": "MIXED", "variant": "affine"},
             {"sim": "elastic", "elem": "TRI3", "law": "iso_strain", "variant": "tie"}, {"sim": "elastic", "elem": "QUAD8", "law": "trans", "variant": "tie"},
             {"sim": "thermal", "elem": "SEG3"}, {"sim": "thermal", "elem": "TRI10", "variant": "affine"},
             {"sim": "thermal", "elem": "QUAD9", "variant": "renum"}, {"sim": "thermal", "elem": "TETRA10", "variant": "plain"},
